@@ -27,6 +27,7 @@ import (
 	"os"
 	"reflect"
 	"runtime"
+	"strconv"
 	"strings"
 	"sync"
 	"sync/atomic"
@@ -34,6 +35,7 @@ import (
 	"time"
 	"unsafe"
 
+	"github.com/prometheus/client_golang/prometheus"
 	"golang.org/x/sync/semaphore"
 	"pgregory.net/rapid"
 
@@ -41,7 +43,8 @@ import (
 )
 
 type c20Op struct {
-	// K: start | startdone | cancel | cancelw | yield | yieldx | yieldp | release | rerelease
+	// K: start | startdone | startg | cancel | cancelw | yield | yieldx | yieldp | yieldg | release | rerelease
+	// (startg / yieldg: the context is cancelled exactly when the interactive / batch slot is handed over)
 	K string
 	// S selects the search the operation applies to: index (mod n) into the
 	// searches that are eligible for K in the current state, in start order.
@@ -127,10 +130,14 @@ type c20Call struct {
 type c20Search struct {
 	ctx    context.Context
 	cancel context.CancelFunc
-	done   bool // the harness cancelled ctx
-	state  int
-	proc   *process
-	call   *c20Call
+	done   atomic.Bool // ctx was cancelled (by the harness thread or by the hand-over hook)
+	// armed: cancel ctx at the moment a semaphore hands a slot to this search
+	// (in the acquiring goroutine, right after the acquisition: c20Gauge)
+	armed         atomic.Bool
+	cancelAtGrant atomic.Bool // the hook fired
+	state         int
+	proc          *process
+	call          *c20Call
 	// waited: the call in flight was observed blocked in a stable state
 	waited bool
 }
@@ -147,6 +154,50 @@ type c20Run struct {
 	nt       bool
 	skipped  int
 	aborted  bool
+	byG      sync.Map // goroutine id -> *c20Search whose Acquire/Yield runs there
+}
+
+// c20Gauge wraps the "running" gauge of a sema. sema.Acquire increments it
+// right after the semaphore handed over a slot, in the acquiring goroutine and
+// before Acquire / yieldFunc look at anything else: the one place where a
+// cancellation that races with a successful acquisition can be placed exactly.
+type c20Gauge struct {
+	prometheus.Gauge
+	hook func()
+}
+
+func (g c20Gauge) Inc() {
+	g.Gauge.Inc()
+	g.hook()
+}
+
+// handOver runs in the goroutine that just acquired a slot.
+func (r *c20Run) handOver() {
+	v, ok := r.byG.Load(c20Goid())
+	if !ok {
+		return
+	}
+	s := v.(*c20Search)
+	if s.armed.CompareAndSwap(true, false) {
+		s.cancelAtGrant.Store(true)
+		s.done.Store(true)
+		s.cancel()
+	}
+}
+
+// c20Goid is the id of the calling goroutine (from the stack header).
+func c20Goid() int64 {
+	var buf [64]byte
+	n := runtime.Stack(buf[:], false)
+	f := strings.Fields(string(buf[:n]))
+	if len(f) < 2 {
+		return -1
+	}
+	id, err := strconv.ParseInt(f[1], 10, 64)
+	if err != nil {
+		return -1
+	}
+	return id
 }
 
 var c20StuckTimeout = 240 * time.Second
@@ -198,7 +249,7 @@ func (r *c20Run) handle(id int, s *c20Search, res c20Res) error {
 	}
 	if res.err != nil {
 		// "an acquisition fails only when its context is done"
-		if !s.done || s.ctx.Err() == nil {
+		if !s.done.Load() || s.ctx.Err() == nil {
 			return kit.Fail("failed-with-live-context", "search %d: %s returned %v although its context is not done", id, what, res.err)
 		}
 		if !errors.Is(res.err, s.ctx.Err()) {
@@ -226,7 +277,9 @@ func (r *c20Run) handle(id int, s *c20Search, res c20Res) error {
 			switch {
 			case waited:
 				r.label("acquire:granted-after-waiting")
-			case s.done:
+			case s.cancelAtGrant.Load():
+				r.label("acquire:granted,cancelled-at-hand-over")
+			case s.done.Load():
 				r.label("acquire:granted-despite-done-context")
 			default:
 				r.label("acquire:granted-at-once")
@@ -249,7 +302,9 @@ func (r *c20Run) handle(id int, s *c20Search, res c20Res) error {
 		if waited {
 			r.nt = true
 			r.label("yield:batch-granted-after-waiting")
-		} else if s.done {
+		} else if s.cancelAtGrant.Load() {
+			r.label("yield:batch-granted,cancelled-at-hand-over")
+		} else if s.done.Load() {
 			r.label("yield:batch-granted-despite-done-context")
 		} else {
 			r.label("yield:batch-granted-at-once")
@@ -271,7 +326,7 @@ func (r *c20Run) settle(after string) error {
 		live, doneCtx := 0, 0
 		for _, s := range r.searches {
 			if s.call != nil {
-				if s.done {
+				if s.done.Load() {
 					doneCtx++
 				} else {
 					live++
@@ -383,7 +438,7 @@ func (r *c20Run) apply(i int, op c20Op) error {
 	}
 	name := fmt.Sprintf("op %d (%s)", i, op.K)
 	switch op.K {
-	case "start", "startdone":
+	case "start", "startdone", "startg":
 		active := len(r.eligible(func(s *c20Search) bool { return s.state != c20Released && s.state != c20AcqFailed }))
 		if active >= 2*r.cap+r.bcap+3 || len(r.searches) >= 40 {
 			r.skipped++
@@ -393,7 +448,10 @@ func (r *c20Run) apply(i int, op c20Op) error {
 		s := &c20Search{ctx: ctx, cancel: cancel, state: c20PendingAcq}
 		if op.K == "startdone" {
 			cancel()
-			s.done = true
+			s.done.Store(true)
+		}
+		if op.K == "startg" {
+			s.armed.Store(true)
 		}
 		call := &c20Call{res: make(chan c20Res, 1)}
 		s.call = call
@@ -401,16 +459,19 @@ func (r *c20Run) apply(i int, op c20Op) error {
 		sched := r.sched
 		go func() {
 			var res c20Res
+			g := c20Goid()
+			r.byG.Store(g, s)
 			res.panicked = c20Guard(func() { res.proc, res.err = sched.Acquire(ctx) })
+			r.byG.Delete(g)
 			call.res <- res
 		}()
 		r.label("op:" + op.K)
 
 	case "cancel", "cancelw":
-		ids := r.eligible(func(s *c20Search) bool { return !s.done && s.call != nil })
+		ids := r.eligible(func(s *c20Search) bool { return !s.done.Load() && s.call != nil })
 		if op.K == "cancel" || len(ids) == 0 {
 			ids = r.eligible(func(s *c20Search) bool {
-				return !s.done && (s.call != nil || s.state == c20HoldI || s.state == c20HoldB)
+				return !s.done.Load() && (s.call != nil || s.state == c20HoldI || s.state == c20HoldB)
 			})
 		}
 		if len(ids) == 0 {
@@ -418,7 +479,7 @@ func (r *c20Run) apply(i int, op c20Op) error {
 			return nil
 		}
 		_, s := pick(ids)
-		s.done = true
+		s.done.Store(true)
 		s.cancel()
 		if s.call != nil {
 			r.label("op:cancel-waiting")
@@ -426,8 +487,12 @@ func (r *c20Run) apply(i int, op c20Op) error {
 			r.label("op:cancel-holder")
 		}
 
-	case "yield", "yieldx", "yieldp":
-		ids := r.eligible(func(s *c20Search) bool { return s.call == nil && (s.state == c20HoldI || s.state == c20HoldB) })
+	case "yield", "yieldx", "yieldp", "yieldg":
+		// Yield may be called again after it failed: streamSearch calls
+		// `_ = proc.Yield(ctx)` on every iteration and ignores the error.
+		ids := r.eligible(func(s *c20Search) bool {
+			return s.call == nil && (s.state == c20HoldI || s.state == c20HoldB || s.state == c20YieldFailed)
+		})
 		if len(ids) == 0 {
 			r.skipped++
 			return nil
@@ -437,7 +502,7 @@ func (r *c20Run) apply(i int, op c20Op) error {
 		forced := false
 		if p.yieldTimer != nil {
 			switch op.K {
-			case "yieldx":
+			case "yieldx", "yieldg":
 				// a stopped deadlineTimer reports Exceeded
 				p.yieldTimer.Stop()
 				forced = true
@@ -449,13 +514,30 @@ func (r *c20Run) apply(i int, op c20Op) error {
 			}
 		}
 		call := &c20Call{yield: true, res: make(chan c20Res, 1)}
-		if s.state == c20HoldI && forced {
+		if s.state == c20YieldFailed {
+			// The failed Yield left yieldTimer in place and it stays exceeded (a
+			// deadlineTimer that fired or was stopped reports Exceeded for good),
+			// so whatever the mode yieldFunc runs again: the process holds no
+			// slot ("sem" is nil), nothing may be released, and it queues for a
+			// batch slot once more with its (done) context.
+			if p.yieldTimer == nil {
+				return kit.Fail("harness", "failed yield cleared the yield timer")
+			}
+			call.exceeded = true
+			s.state = c20PendingYield
+			r.label("op:yield-again-after-failed-yield")
+		} else if s.state == c20HoldI && forced {
 			if r.multi == nil {
 				return kit.Fail("harness", "yield timer on a single-semaphore process")
 			}
 			call.exceeded = true
 			s.state = c20PendingYield // the interactive slot is given up first
-			r.label("op:yield-exceeded")
+			if op.K == "yieldg" {
+				s.armed.Store(true) // cancel exactly when the batch slot is handed over
+				r.label("op:yield-exceeded-cancel-at-hand-over")
+			} else {
+				r.label("op:yield-exceeded")
+			}
 		} else if s.state == c20HoldB {
 			r.label("op:yield-already-batch")
 		} else {
@@ -465,7 +547,10 @@ func (r *c20Run) apply(i int, op c20Op) error {
 		ctx := s.ctx
 		go func() {
 			var res c20Res
+			g := c20Goid()
+			r.byG.Store(g, s)
 			res.panicked = c20Guard(func() { res.err = p.Yield(ctx) })
+			r.byG.Delete(g)
 			call.res <- res
 		}()
 
@@ -559,6 +644,9 @@ func newC20Run(c *c20Case) (*c20Run, error) {
 			r.bcap = 1
 		}
 		r.multi, r.sched = m, m
+		for _, sm := range []*sema{m.semInteractive, m.semBatch} {
+			sm.metricRunning = &gaugeCounter{gauge: c20Gauge{Gauge: sm.metricRunning.gauge, hook: r.handOver}, counter: sm.metricRunning.counter}
+		}
 		var err error
 		if r.pI, err = newC20Probe(m.semInteractive.sem); err != nil {
 			return nil, err
@@ -607,8 +695,8 @@ func runC20(rec *kit.Recorder, c c20Case) error {
 		}
 		// wind down: cancel whoever still waits, release whoever still holds
 		for _, s := range r.searches {
-			if s.call != nil && !s.done {
-				s.done = true
+			if s.call != nil && !s.done.Load() {
+				s.done.Store(true)
 				s.cancel()
 			}
 		}
@@ -673,6 +761,8 @@ func runC20Stress(rec *kit.Recorder, c c20Case) error {
 	var acquired, yielded, failed atomic.Int64
 	var firstErr atomic.Value
 	var stop atomic.Bool
+	var active atomic.Int64 // workers that have not finished their plan
+	active.Store(int64(c.Workers))
 	fail := func(d *kit.Discrepancy) {
 		firstErr.CompareAndSwap(nil, d)
 	}
@@ -682,6 +772,7 @@ func runC20Stress(rec *kit.Recorder, c c20Case) error {
 		wg.Add(1)
 		go func(w int) {
 			defer wg.Done()
+			defer active.Add(-1)
 			if p := c20Guard(func() {
 				for k := 0; k < len(c.Plan) && !stop.Load(); k++ {
 					b := c.Plan[(k+w*7)%len(c.Plan)] + uint8(w)
@@ -744,8 +835,9 @@ func runC20Stress(rec *kit.Recorder, c c20Case) error {
 			}
 		}(w)
 	}
-	// Deadlock monitor (exact, not a timeout): if every worker sits in a waiter
-	// list nobody is left to release or cancel, so slots must have leaked.
+	// Deadlock monitor (exact, not a timeout): if every worker that still runs
+	// sits in a waiter list nobody is left to release or cancel, so slots must
+	// have leaked.
 	finished := make(chan struct{})
 	go func() { wg.Wait(); close(finished) }()
 monitor:
@@ -755,8 +847,10 @@ monitor:
 			break monitor
 		default:
 		}
-		if snap := r.snapshot(); snap.waitI+snap.waitB >= c.Workers {
-			fail(kit.Fail("leak", "stress: all %d workers wait for a slot (interactive %d, batch %d waiting; semaphores hold %d/%d) and nobody holds one", c.Workers, snap.waitI, snap.waitB, snap.curI, snap.curB))
+		// read before the snapshot: a worker that finishes in between only makes the test stricter
+		n := int(active.Load())
+		if snap := r.snapshot(); n > 0 && snap.waitI+snap.waitB >= n {
+			fail(kit.Fail("leak", "stress: all %d unfinished workers wait for a slot (interactive %d, batch %d waiting; semaphores hold %d/%d) and nobody holds one", n, snap.waitI, snap.waitB, snap.curI, snap.curB))
 			stop.Store(true)
 			for i := range cancels {
 				if cf := cancels[i].Load(); cf != nil {
@@ -816,6 +910,7 @@ func genC20(rt *rapid.T) c20Case {
 	kinds := []string{
 		"start", "yieldx", "release", "start", "yieldx", "release", "start", "yieldp", "cancelw", "release",
 		"start", "yieldx", "yield", "cancel", "start", "yieldp", "release", "cancelw", "startdone", "rerelease",
+		"startg", "yieldg", "yieldx", "start",
 	}
 	op := rapid.Custom(func(t *rapid.T) c20Op {
 		return c20Op{K: kit.Pick(kit.G{T: t}, kinds, "op"), S: rapid.IntRange(0, 11).Draw(t, "sel")}
@@ -829,11 +924,12 @@ func genC20(rt *rapid.T) c20Case {
 func TestVerif_C20(t *testing.T) {
 	log.SetOutput(io.Discard) // newMultiScheduler logs the batchdiv tunable
 	rec := kit.Open(t, "C20",
-		"rapid-generated schedules: scheduler kind (two-semaphore multiScheduler, 10% single-semaphore fallback), capacity 1-4 (6% 8), batchdiv tunable unset/1/2/3, then 4-45 operations start-acquire / start with cancelled context / cancel / yield within the time slice / yield with the slice forced used up (stopped timer or a real timer with a past deadline) / release / second release, each applied to a search picked by a selector among the searches the operation applies to; every Acquire and Yield runs in its own goroutine and the harness proceeds only in a stable state (every call returned or queued in a semaphore's waiter list, both lists read under both locks); non-trivial = some yield had to wait for a batch slot or failed because its context was cancelled; distinct by the JSON of the case; 3% of the cases are an uncontrolled stress run (mode:stress) whose only oracles are bounds, error-implies-done-context, no panic and full semaphores at the end",
+		"rapid-generated schedules: scheduler kind (two-semaphore multiScheduler, 10% single-semaphore fallback), capacity 1-4 (6% 8), batchdiv tunable unset/1/2/3, then 4-45 operations start-acquire / start with cancelled context / start whose context is cancelled exactly when its slot is handed over / cancel / yield within the time slice / yield with the slice forced used up (stopped timer or a real timer with a past deadline; also with cancellation exactly at the batch hand-over; also repeated after a failed yield) / release / second release, each applied to a search picked by a selector among the searches the operation applies to; every Acquire and Yield runs in its own goroutine and the harness proceeds only in a stable state (every call returned or queued in a semaphore's waiter list, both lists read under both locks); non-trivial = some yield had to wait for a batch slot or failed because its context was cancelled; distinct by the JSON of the case; 3% of the cases are an uncontrolled stress run (mode:stress) whose only oracles are bounds, error-implies-done-context, no panic and full semaphores at the end",
 		"a search that gave up its interactive slot and waits for a batch slot holds no slot (sched.go yieldFunc releases before it acquires)",
 		"occupancy and waiter counts are read from semaphore.Weighted's unexported fields under its own mutex (observer hook); free capacity is additionally probed with TryAcquire",
 		"which of several waiters receives a freed slot is not asserted",
-		"Yield is not called again after it returned an error, nor concurrently with itself or Release (documented contract); a second Release is only issued on multiScheduler processes",
+		"Yield may be called again after it failed (streamSearch ignores the error): the process then holds no slot, releases nothing and queues for a batch slot again; Yield is not called concurrently with itself or Release (documented contract); a second Release is only issued on multiScheduler processes",
+		"startg / yieldg place a cancellation exactly at the hand-over of a slot through the sema's running-gauge (in-package hook), identified by goroutine id",
 	)
 	if _, err := newC20Probe(semaphore.NewWeighted(1)); err != nil {
 		t.Fatalf("cannot observe semaphore state: %v", err)
